@@ -18,7 +18,7 @@ def run(c):
     c.rule = ("per case index one of: ck (op sequences on a real ChunkedStorage2: read/next/reset/start/item/flush/fin, injected write "
               "failures, re-opened truncated or bit-flipped copies, sampled damage probes), ckx (small multi-chunk file + every truncation "
               "offset and every single-bit flip; quick tier: every 2nd offset / 5th bit), mc (op sequences on a real MappingsCache: "
-              "add/get/ttl/set/stats/save/reload full|trunc|flip/probe, deterministic and production sort mode, testMode on/off), mcx (small "
+              "add/get/ttl/set/stats/save/reload full|trunc|flip/probe, deterministic and production sort mode, testMode on/off; every lookup goes through GetValue AND GetValueBytes, alternating which of the two performs the access-time refresh, the Bytes key being a slice of one reused scratch buffer that is overwritten after every call), mcx (small "
               "saved cache file + every truncation/bit flip loaded into a throw-away cache), raw (crafted hash-valid files with malformed item "
               "streams), bigck/bigmc (> ChunkSize/2 of data). non-trivial = reached eviction / TTL removal / a damaged re-open or reload / a "
               "write error / a multi-chunk file / an exhaustive damage slice / a load error on a crafted file; distinct by op-sequence hash")
@@ -88,7 +88,10 @@ META = {
              "partial: damage that makes the file LONGER (appending bytes) is outside the closed theorem (a forged, correctly hashed extra chunk would be "
              "loaded — not a corruption model); the sort of the eviction candidates by access time is an observed input checked by sortedCands, not "
              "derived; the reader half of ChunkedStorage2 interleaved with writes (ReadNext after partial writes) is covered by the correspondence only; "
-             "load does not enforce maxSize, so the size theorem is about AddValues and constant limits. Defect found and fixed in /repo (9b6d1e49): the "
+             "load does not enforce maxSize, so the size theorem is about AddValues and constant limits. Keys are byte-string VALUES in the model (GetValueBytes = GetValue): any "
+             "dependence of the real cache on the caller's buffer after a call returned is a digest disagreement and oracle sig=key-aliases-caller-buffer "
+             "(seed C21-r3-2; the harness looks every key up through both variants from one reused, overwritten scratch buffer). "
+             "Defect found and fixed in /repo (9b6d1e49): the "
              "same new string twice in one AddValues call double-counted sumSize/sumTS; kept as Variant.dupAdd with theorem dupAdd_breaks_accounting."),
     "design_ref": "DESIGN.md §6 C21",
 }
